@@ -27,6 +27,7 @@ func C16(run *core.Run) {
 	syncCheck(run, 4, 15, 2, every, syncOpts{})
 	stalePooledScenario(run)
 	staleFrontierScenario(run)
+	phantomHeaderScenario(run)
 	run.Finish()
 }
 
@@ -218,5 +219,88 @@ func staleFrontierScenario(run *core.Run) {
 	fr := f.Frontier()
 	if fr.Hash != a[len(a)-1].Momentum.Hash || r.err == nil {
 		run.Report("C16:adopts-side-chain-that-is-not-longer-when-it-takes-effect", fmt.Sprintf("a side chain ending at height 12 was delivered while another inserter extended the node's chain from 10 to 14: the delivery returned (%d, %v) and the node's frontier is %v at height %d - it left a chain of 14 for one of 12", r.idx, r.err, fr.Hash, fr.Height), rep)
+	}
+}
+
+// phantomHeaderScenario: the rightful producer signs a momentum whose content lists, besides what the honest momentum lists,
+// the header of a contract send that no contract ever produced (the block is delivered along). Hash, signature, producer and
+// changes hash are right - the changes of a momentum do not depend on a block that has no patch. It is an invalid element
+// (a content entry without a verified account block behind it): refused.
+func phantomHeaderScenario(run *core.Run) {
+	node.Clock.Set(time.Unix(1000000000, 0))
+	rep := map[string]interface{}{"kind": "phantom-content-header"}
+	p, err := node.New("phantom-p", node.Options{Producer: true})
+	core.Must(err)
+	defer p.Stop()
+	_, err = p.Submit(&nom.AccountBlock{BlockType: nom.BlockTypeUserSend, Address: g.User1.Address, ToAddress: g.User2.Address, TokenStandard: types.ZnnTokenStandard, Amount: big.NewInt(10)}, g.User1)
+	core.Must(err)
+	core.Must(p.ProduceN(4))
+	base, err := p.Detailed(2, p.Height())
+	core.Must(err)
+	a, err := node.New("phantom-a", node.Options{})
+	core.Must(err)
+	defer a.Stop()
+	_, err = a.InsertChain(wireAll(base))
+	core.Must(err)
+	_, err = p.Submit(&nom.AccountBlock{BlockType: nom.BlockTypeUserSend, Address: g.User1.Address, ToAddress: g.User3.Address, TokenStandard: types.ZnnTokenStandard, Amount: big.NewInt(11)}, g.User1)
+	core.Must(err)
+	tx, err := p.GenerateMomentum(0)
+	core.Must(err)
+	m := tx.Momentum
+	var honest []*nom.AccountBlock
+	for _, h := range m.Content {
+		blk, err := p.Chain.GetFrontierAccountStore(h.Address).ByHash(h.Hash)
+		if err != nil || blk == nil {
+			core.Fatal("phantom: content block not found: %v", err)
+		}
+		honest = append(honest, blk)
+	}
+	// the phantom: a send of the plasma contract that nothing produced
+	cfr, err := p.Chain.GetFrontierAccountStore(types.PlasmaContract).Frontier()
+	core.Must(err)
+	ph := &nom.AccountBlock{Version: 1, ChainIdentifier: m.ChainIdentifier, BlockType: nom.BlockTypeContractSend, Address: types.PlasmaContract, ToAddress: g.User6.Address,
+		Amount: big.NewInt(100000000), TokenStandard: types.QsrTokenStandard, MomentumAcknowledged: p.Frontier().Identifier(), Data: []byte{}}
+	if cfr != nil {
+		ph.Height, ph.PreviousHash = cfr.Height+1, cfr.Hash
+	} else {
+		ph.Height = 1
+	}
+	ph.Hash = ph.ComputeHash()
+	forged := *m
+	forged.Content = append(append([]*types.AccountHeader{}, m.Content...), &types.AccountHeader{Address: ph.Address, HashHeight: types.HashHeight{Hash: ph.Hash, Height: ph.Height}})
+	forged.Hash = types.ZeroHash
+	forged.Hash = forged.ComputeHash()
+	producer, err := p.Cons.GetMomentumProducer(*m.Timestamp)
+	core.Must(err)
+	signed := false
+	for _, k := range g.PillarKeys {
+		if k.Address == *producer {
+			forged.PublicKey = k.Public
+			forged.Signature = k.Sign(forged.Hash.Bytes())
+			signed = true
+		}
+	}
+	if !signed {
+		core.Fatal("phantom: no key for the producer")
+	}
+	dm := &nom.DetailedMomentum{Momentum: &forged, AccountBlocks: append(honest, ph)}
+	w, err := node.Wire(dm)
+	core.Must(err)
+	node.Clock.Set(m.Timestamp.Add(time.Hour))
+	// the honest momentum is acceptable (control on a second node): the forged one differs only by the phantom
+	c, err := node.New("phantom-c", node.Options{})
+	core.Must(err)
+	defer c.Stop()
+	_, err = c.InsertChain(wireAll(base))
+	core.Must(err)
+	hw, _ := node.Wire(&nom.DetailedMomentum{Momentum: m, AccountBlocks: honest})
+	if _, err := c.InsertChain([]*nom.DetailedMomentum{hw}); err != nil {
+		core.Fatal("phantom: the honest momentum is refused: %v", err)
+	}
+	_, err = a.InsertChain([]*nom.DetailedMomentum{w})
+	run.Traces++
+	run.Count("phantom_content_header_scenarios", 1)
+	if err == nil || a.Frontier().Hash == forged.Hash {
+		run.Report("C16:adopts-momentum-with-a-content-header-nothing-verified", fmt.Sprintf("a momentum by the rightful producer whose content lists a contract send that no contract produced is adopted (InsertChain error: %v): the node holds a momentum with a content entry that no verified account block stands behind", err), rep)
 	}
 }
